@@ -1,4 +1,6 @@
 import BoxoModel.C33.Lemmas
+import BoxoModel.C33.BitsLemmas
+import BoxoModel.C33.NonLinkLemmas
 /-!
 C33 — path resolution follows UnixFS names, including sharded directories.
 
@@ -22,6 +24,18 @@ theorem c33_rtl_eq_spec (H : Bytes → Bytes) (root : Node) (segs : List Bytes) 
       else if !root.loadable then .err .load
       else resolveSpec H root segs :=
   resolveToLastNode_eq_spec H root segs
+
+/-- `hashBits.Next(i)` (boxo `ipld/unixfs/hamt/util.go`, verbatim copy in go-unixfsnode): it fails exactly
+when fewer than `i` bits are left; otherwise it consumes `i` bits and returns the window `[c, c+i)` of the
+hash read as ONE big-endian bit string — so successive digits of a key are consecutive, disjoint bit
+groups — and the digit is below `2^i`. For every hash, offset and width (no bound on `i`). -/
+theorem c33_hashbits_window (h : Bytes) (c i : Nat) :
+    (HashBits.mk h c).next i
+      = (if c + i ≤ 8 * h.length then
+          some (C15.ofBits (((hashBitsBE h).drop c).take i), HashBits.mk h (c + i))
+        else none)
+    ∧ (c + i ≤ 8 * h.length → C15.ofBits (((hashBitsBE h).drop c).take i) < 2 ^ i) :=
+  ⟨next_eq_window h c i, window_lt h c i⟩
 
 /-- HAMT read path, soundness (no hypothesis on the shard tree): a successful lookup returns a stored
 entry carrying exactly that key. -/
@@ -120,6 +134,27 @@ theorem c33_empty_hamt_counterexample :
     ∧ resolveToLastNode H root [[101], [120]] = .err .load
     ∧ resolvePath H root [[101]] = none := by
   refine ⟨by decide, by simp [follow, children], by decide, by decide⟩
+
+/-- The NON-LINK terminal branch (plain IPLD trees, e.g. dag-cbor: values nested inside blocks):
+ResolveToLastNode — selector walk reporting (node, block link) pairs, the `depth` counter of
+`resolveNodes` (reset when the block link changes), the count test, the final lookup and
+`remainder[len(remainder)-depth-1:]` — returns the CID of the LAST BLOCK entered together with exactly
+the segments walked inside that block (empty when the path ends on a link), `ErrNoLink` naming the first
+segment that cannot be followed when more segments follow, and the generic error when the last segment
+is missing. Hypothesis: no link targets the block it sits in (`V.acyclic`; hash links cannot). -/
+theorem c33_nonlink_remainder (v : V) (c : Cid) (segs : List Bytes) (hac : V.acyclic v c = true) :
+    rtlV v c segs = specV v c [] segs :=
+  rtlV_eq_spec v c segs hac
+
+private def exV : V :=
+  .map [([97], .map [([98], .scalar), ([99], .link "B2" (.map [([100], .map [([101], .scalar)])]))])]
+
+example : V.acyclic exV "B1" = true := by decide
+example : rtlV exV "B1" [[97], [98]] = .ok "B1" [[97], [98]] := by decide
+example : rtlV exV "B1" [[97], [99]] = .ok "B2" [] := by decide
+example : rtlV exV "B1" [[97], [99], [100], [101]] = .ok "B2" [[100], [101]] := by decide
+example : rtlV exV "B1" [[97], [120], [100]] = .noLink [120] := by decide
+example : rtlV exV "B1" [[97], [120]] = .err := by decide
 
 /-! ### non-vacuity: a two-level HAMT (fanout 8) under a basic directory, with a concrete hash table -/
 
